@@ -1,5 +1,7 @@
 import Driver.Util
 import Model.Resolver
+import Model.ResolverCode
+import Proofs.ResolverSpec
 /-!
 driver ops of C16 (prefix `c16.`)
 
@@ -162,8 +164,12 @@ def runHistory (cfg : Config) (clip : Bool) : List (Request × Nat) → Nat → 
   | (req, gap) :: rest, now, cache, script, acc =>
     let start := now + gap
     let (evs, r, st) := resolve cfg codeBackoff clip ConstsC16.maxChain req start cache script
+    let sp := spec cfg codeBackoff clip ConstsC16.maxChain req start cache script
+    -- the independent specification is run next to the model; any difference is made visible to the differ
+    let agree := showResult sp.1 == showResult r && sp.2.now == st.now && sp.2.script == st.script
+      && showCache sp.2.cache sp.2.now == showCache st.cache st.now
     let line := " ".intercalate ((evs.map showEvent).filter (· ≠ "")) ++ " => " ++ showResult r ++ " end=" ++ toString st.now
-      ++ " cache=" ++ showCache st.cache st.now
+      ++ " cache=" ++ showCache st.cache st.now ++ (if agree then "" else " SPEC-DIFFERS:" ++ showResult sp.1)
     runHistory cfg clip rest st.now st.cache st.script (line :: acc)
 
 def showChain (r : Except ChainErr ChainResult) : String :=
